@@ -538,6 +538,8 @@ type c18PayloadCase struct {
 	Canonical bool   `json:"canonical"`
 	Value     []byte `json:"value"`
 	Origin    string `json:"origin"`
+	// the input again, as bytes: JSON strings cannot carry raw non-UTF-8 bytes, a replay file would lose them
+	InputBytes []byte `json:"input_bytes,omitempty"`
 }
 
 func TestC18Payload(t *testing.T) {
@@ -578,6 +580,7 @@ func TestC18Payload(t *testing.T) {
 					}
 				}
 				c.Input, c.Canonical, c.Origin = sb.String(), false, "raw-bytes"
+				c.InputBytes = []byte(c.Input)
 			case 2:
 				c.Input, c.Canonical, c.Origin = c18Mutate(t, s, []rune(`\x0123456789abcdefABCDEFuUntr"'`+"\n\x00 é ")), false, "mutated"
 			default:
@@ -590,6 +593,9 @@ func TestC18Payload(t *testing.T) {
 }
 
 func c18CheckPayload(c c18PayloadCase) *kit.Verdict {
+	if len(c.InputBytes) > 0 {
+		c.Input = string(c.InputBytes)
+	}
 	v := &kit.Verdict{NonTrivial: c.Input != ""}
 	v.Label("origin=%s", c.Origin)
 	got, err := parsePacketPayload(c.Input)
